@@ -25,7 +25,7 @@ COMPONENTS = {"real": ["setigen.cadence.Cadence / OrderedCadence", "setigen.fram
 ASSUMPTIONS = ["slice assignment is not generated (the statement does not cover it)",
                "where the insertion position lies beyond the order string the operation may raise-and-not-add or add",
                "after an operation that raised, the label of the frame it was given is re-read rather than predicted"]
-PROBES = ["rejected_incompatible", "rejected_nonframe", "index_out_of_range", "negative_index", "insert_beyond_len",
+PROBES = ["cadence_built_from_cadence", "rejected_incompatible", "rejected_nonframe", "index_out_of_range", "negative_index", "insert_beyond_len",
           "label_assigned", "label_sticky", "by_label_checked", "set_order_applied", "extend_partial", "slice_selection",
           "index_array_selection", "empty_cadence_op"]
 
@@ -75,6 +75,9 @@ def generate(rng, tier):
             ops.append({"op": "pop", "i": rng.choice([None, None, idx()])})
         elif r < 0.76:
             ops.append({"op": "getitem", "i": idx()})
+            if rng.random() < 0.5:
+                ops.append({"op": "derive_mutate", "how": rng.choice(["clone", "clone", "plain_clone", "slice", "array"]),
+                            "mut": rng.choice(["pop", "del0", "append", "reverse"])})
         elif r < 0.82:
             ops.append({"op": "getslice", "a": rng.choice([None, 0, 1, -2, 5]), "b": rng.choice([None, 1, 3, -1, 9]),
                         "c": rng.choice([None, None, 2, -1])})
@@ -479,6 +482,40 @@ def execute(sc, ctx):
             else:
                 if not ctx.check(exc is not None, "index", "C18/%s/getarray/%s/out_of_range_accepted" % (cname, form), "no exception"):
                     return
+        elif kind == "derive_mutate":
+            # a cadence built from this one (constructor given the cadence itself, a full slice, an index array) is
+            # another container over the same frames: what happens to it afterwards is not this cadence's business
+            how = op["how"]
+            try:
+                if how == "clone":
+                    der = cls(cad, order=state["order"]) if ordered else cls(cad)
+                elif how == "plain_clone":
+                    der = stg.Cadence(cad)
+                elif how == "slice":
+                    der = cad[:]
+                else:
+                    der = cad[list(range(n))] if n else cad[:]
+            except Exception as e:
+                ctx.violation("list", "C18/%s/derive/%s/raises:%s" % (cname, how, type(e).__name__), repr(e))
+                return
+            ctx.hit("cadence_built_from_cadence")
+            if not ctx.check([id(f) for f in der] == [id(f) for f in ref], "list", "C18/%s/derive/%s/wrong_members" % (cname, how),
+                             lambda: "derived cadence holds %s" % [pid.get(id(f)) for f in der]):
+                return
+            try:
+                if op["mut"] == "pop" and len(der):
+                    der.pop()
+                elif op["mut"] == "del0" and len(der):
+                    del der[0]
+                elif op["mut"] == "reverse" and len(der) > 1:
+                    der.reverse()
+                elif len(der):
+                    der.append(der[0])
+            except Exception as e:
+                ctx.violation("list", "C18/%s/derive/%s/mutation_raises:%s" % (cname, how, type(e).__name__), repr(e))
+                return
+            if not seq_ok("source_after_mutating_derived:" + how, "n/a"):
+                return
         elif kind == "by_label":
             if not ordered:
                 continue
